@@ -1,0 +1,71 @@
+// Copyright (C) 2026  The GoHBase Authors.  All rights reserved.
+// This file is part of GoHBase.
+// Use of this source code is governed by the Apache License 2.0
+// that can be found in the COPYING file.
+
+//go:build verif
+
+package region
+
+import (
+	"net"
+
+	"github.com/tsuna/gohbase/compression"
+	"github.com/tsuna/gohbase/hrpc"
+	"google.golang.org/protobuf/proto"
+)
+
+// This file only exists in builds with the "verif" tag. It exposes a few
+// internals to an external verification harness and changes no behaviour.
+
+// VerifCompress runs the cellblock compressor of a connection.
+func VerifCompress(codec compression.Codec, cbs [][]byte, uncompressedLen uint32) []byte {
+	c := &compressor{Codec: codec}
+	out := c.compressCellblocks(net.Buffers(cbs), uncompressedLen)
+	res := append([]byte(nil), out...)
+	freeBuffer(out)
+	return res
+}
+
+// VerifDecompress runs the cellblock decompressor of a connection.
+func VerifDecompress(codec compression.Codec, b []byte) ([]byte, error) {
+	c := &compressor{Codec: codec}
+	return c.decompressCellblocks(b)
+}
+
+// VerifMulti wraps the multi-request object used by the batching goroutine.
+type VerifMulti struct {
+	m *multi
+}
+
+// VerifNewMulti creates a multi-request holding calls.
+func VerifNewMulti(calls []hrpc.Call) *VerifMulti {
+	m := newMulti(len(calls) + 1)
+	m.add(calls)
+	return &VerifMulti{m: m}
+}
+
+// Serialize returns the request and cellblocks as sent on the wire.
+func (v *VerifMulti) Serialize() (proto.Message, [][]byte, uint32) {
+	return v.m.SerializeCellBlocks(nil)
+}
+
+// NewResponse returns an empty response message.
+func (v *VerifMulti) NewResponse() proto.Message {
+	return v.m.NewResponse()
+}
+
+// Deserialize runs the multi-response cellblock decoder.
+func (v *VerifMulti) Deserialize(msg proto.Message, b []byte) (uint32, error) {
+	return v.m.DeserializeCellBlocks(msg, b)
+}
+
+// ReturnResults dispatches results to calls (consumes the multi).
+func (v *VerifMulti) ReturnResults(msg proto.Message, err error) {
+	v.m.returnResults(msg, err)
+}
+
+// VerifExceptionToError exports the exception classification.
+func VerifExceptionToError(class, stack string) error {
+	return exceptionToError(class, stack)
+}
